@@ -55,11 +55,17 @@ def run(tier):
                               alter=[("PQ", "p0", None, 1.2345), ("PQ", "q0", None, 0.5), ("Line", "u", None, 0), ("PV", "v0", None, 1.02)]))
     for k in range(10 if quick else 80):
         idx_kind = ["int", "str", "auto"][k % 3]
-        spec = dyn_network(rnd, k, idx_kind, False, rnd.randint(0, 10 ** 6)) if k % 2 else pfdrv.network_spec(500 + k, ["int", "str"][k % 2], 1 + k % 3, k)
+        spec = dyn_network(rnd, k, idx_kind, False, rnd.randint(0, 10 ** 6)) if k % 2 else \
+            pfdrv.network_spec(500 + k, ["mixed", "int", "str"][(k // 2) % 3], 1 + k % 3, k)
         tasks.append(dict(kind="rt", sid="rt-gen[k=%d|%s]" % (k, idx_kind), spec=spec, formats=["json", "xlsx"] if k % 2 == 0 else ["xlsx>json"], solve=True))
     for c in (["ieee14/ieee14.json", "kundur/kundur_full.json", "npcc/npcc.xlsx"] if quick else ["ieee14/ieee14.json", "kundur/kundur_full.json", "ieee39/ieee39.xlsx", "npcc/npcc.xlsx", "wscc9/wscc9.xlsx"]):
         tasks.append(dict(kind="matpower", sid="mpc[%s]" % c, case=c))
         tasks.append(dict(kind="matpower", sid="mpc[%s|phase shifter]" % c, case=c, phase_shifter=2))
+    # one network, two encodings in the PSS/E format: the k-th transformer entered on its winding base instead of the system base
+    for c in (["kundur/kundur.raw", "ieee14/ieee14.raw"] if quick else ["kundur/kundur.raw", "ieee14/ieee14.raw", "wscc9/wscc9.raw", "ieee39/ieee39.raw", "npcc/npcc.raw"]):
+        if os.path.exists(os.path.join("/repo/andes/cases", c)):
+            tasks.append(dict(kind="raw", sid="raw[%s|transformer on winding base]" % c, case=c,
+                              variants=[(0, 900.0), (1, 50.0), (-1, 250.0)] if quick else [(k_, sb) for k_ in range(6) for sb in (900.0, 50.0)]))
     # fill in the idx of the altered device
     res = run_tasks("vh.checks.c13:task", tasks, nproc=NCPU, timeout=1500)
     traces = []
